@@ -199,10 +199,14 @@ pub async fn consume_partitions(
 ) -> Vec<Result<Vec<RecordBatch>>> {
     let n = plan.properties().partitioning.partition_count();
     let mut handles = vec![];
+    // streams that reached end-of-stream and are still held: when the last one gets there, everything the
+    // plan buffered has been handed out (see `probe.reserved_at_last_eof`)
+    let at_eof = Arc::new(std::sync::atomic::AtomicUsize::new(0));
     for p in 0..n {
         let plan = Arc::clone(plan);
         let task = Arc::clone(task);
         let limit = drops.get(p).copied().flatten();
+        let at_eof = Arc::clone(&at_eof);
         handles.push(SpawnedTask::spawn(async move {
             let mut out = vec![];
             if limit == Some(0) {
@@ -216,7 +220,17 @@ pub async fn consume_partitions(
                 out.push(b?);
                 sim::trace_event("out_batch", p as u64);
                 if limit.is_some_and(|l| out.len() as u64 >= l) {
-                    break;
+                    drop(s);
+                    return Ok(out);
+                }
+            }
+            // end-of-stream; the stream is still alive. If every output partition got here, note what
+            // the memory pool still holds for the query while all of its streams exist
+            if at_eof.fetch_add(1, std::sync::atomic::Ordering::Relaxed) + 1 == n {
+                sim::probe("probe.all_outputs_at_eof");
+                if let Some(r) = crate::pool::current_query_reserved() {
+                    sim::probe_max("probe.reserved_at_last_eof_max", r as u64);
+                    sim::with(|s| s.reserved_at_last_eof = Some(r));
                 }
             }
             drop(s);
